@@ -51,10 +51,20 @@ def run_case(case, ctx):
     na = int(rng.integers(1, 4))
     scales = gen.SCALES_MODERATE if case["rep"] % 3 else [0.5, 1.0, 3.0, 10.0]
     am, ph = gen.draw_model(rng, kind, nv, nh, na, scales=scales)
+    obs = []
+    for ab in (False, True):
+        obs += [("SigmaX", SigmaX(absolute=ab), R.magnetisation(R.SX, nv), ab),
+                ("SigmaY", SigmaY(absolute=ab), R.magnetisation(R.SY, nv), ab),
+                ("SigmaZ", SigmaZ(absolute=ab), R.magnetisation(R.SZ, nv), ab)]
+    for c in range(1, nv + 1):
+        for per in (False, True):
+            obs.append((f"NeighbourInteraction(periodic={per},c={c})", NeighbourInteraction(periodic_bcs=per, c=c),
+                        R.zz_interaction(nv, c, per), False))
     if case["rep"] % 2:
         def warm(s_):
+            # the SAME observable instances are first applied to a state with other parameters
             sp_ = s_.generate_hilbert_space()
-            for o_ in (SigmaX(), SigmaY(), SigmaZ(), NeighbourInteraction(c=1)):
+            for _, o_, _, _ in obs:
                 o_.apply(s_, sp_)
         st, how = gen.make_state_used(rng, kind, am, ph, warm)
         ctx.count("states_used_before_with_other_parameters")
@@ -72,15 +82,6 @@ def run_case(case, ctx):
     sp = torch.tensor(V, dtype=torch.double)
     tags = {"state": kind}
     wit = {"am": gen.small_params(am), "ph": gen.small_params(ph)}
-    obs = []
-    for ab in (False, True):
-        obs += [("SigmaX", SigmaX(absolute=ab), R.magnetisation(R.SX, nv), ab),
-                ("SigmaY", SigmaY(absolute=ab), R.magnetisation(R.SY, nv), ab),
-                ("SigmaZ", SigmaZ(absolute=ab), R.magnetisation(R.SZ, nv), ab)]
-    for c in range(1, nv + 1):
-        for per in (False, True):
-            obs.append((f"NeighbourInteraction(periodic={per},c={c})", NeighbourInteraction(periodic_bcs=per, c=c),
-                        R.zz_interaction(nv, c, per), False))
     perm = rng.integers(0, N, size=min(2 * N, 12))
     shuffled = sp[perm].clone()
     single = sp[int(rng.integers(0, N))].clone().unsqueeze(0)
